@@ -9,6 +9,7 @@ import inspect
 import itertools
 import pkgutil
 import warnings
+from typing import Any, Callable, ClassVar  # noqa: F401  (used by the run-time harness classes)
 
 from tools.corr import C18m1 as m1
 from tools.lib import common
@@ -51,6 +52,101 @@ def implements_doit(cls) -> bool:
 
     d = cls.__dict__.get("doit")
     return d is not None and d is not sp.Basic.doit and hasattr(d, "__wrapped__")
+
+
+def harness_weight(a, b):
+    """Default callable attribute of the harness class `HFull` (module level: picklable)."""
+    return a + 2 * b
+
+
+def harness_weight2(a, b):
+    return a * b - 1
+
+
+def make_weight(k):
+    def weight(a, b):
+        return a + k * b
+
+    return weight
+
+
+_HARNESS_FUNCTIONS: list = []
+
+
+def harness_function_values() -> list:
+    if not _HARNESS_FUNCTIONS:
+        _HARNESS_FUNCTIONS.extend([harness_weight2, make_weight(3), make_weight(5)])
+    return _HARNESS_FUNCTIONS
+
+
+_HARNESS: list = []
+
+
+def harness_classes() -> list:
+    """Classes defined at RUN TIME with the real decorator, using every decorator option
+    (implement_doit=False, commutative=False, other assumptions, default SymPy arguments, ClassVar,
+    several non-SymPy attributes with and without defaults in the middle of the field list,
+    a string and a method `_latex_repr_`, a custom `_numpycode`): they test the decorator machinery
+    itself, independently of the classes ampform defines today. They are added to the class table."""
+    if _HARNESS:
+        return _HARNESS
+    import sympy as sp
+
+    from ampform.sympy import NumPyPrintable, argument, unevaluated
+
+    @unevaluated
+    class HFull(sp.Expr):
+        a: Any
+        weight: Callable = argument(default=harness_weight, sympify=False)
+        b: Any = 2
+        tag: "str | None" = argument(default=None, sympify=False)
+        counter: ClassVar[int] = 0
+        _latex_repr_ = R"H\left({a}, {b}\right)"
+
+        def evaluate(self):
+            return self.weight(self.a, self.b) ** 2 + self.a
+
+    @unevaluated(implement_doit=False)
+    class HOpaque(sp.Expr):
+        a: Any
+        b: Any = sp.Rational(1, 2)
+        tag: "str | None" = argument(default="t", sympify=False)
+
+        def _latex_repr_(self, printer, *args):
+            return "O(" + ", ".join(printer._print(x) for x in self.args) + ")"  # noqa: SLF001
+
+    @unevaluated(commutative=False, real=True)
+    class HNonComm(sp.Expr):
+        x: Any
+        y: Any
+
+        def evaluate(self):
+            return self.x * self.y - self.y
+
+    @unevaluated(implement_doit=False)
+    class HPrint(NumPyPrintable):
+        a: Any
+        b: Any
+        label: str = argument(default="h", sympify=False)
+
+        def evaluate(self):
+            return sp.sqrt(self.a**2 + self.b**2) / (1 + self.a)
+
+        def _numpycode(self, printer, *args):
+            return printer._print(self.evaluate(), *args)  # noqa: SLF001
+
+    for cls in (HFull, HOpaque, HNonComm, HPrint):
+        cls.__qualname__ = cls.__name__
+        globals()[cls.__name__] = cls
+        _HARNESS.append(cls)
+    return _HARNESS
+
+
+def __getattr__(name):  # pickle looks the harness classes up by name in a fresh interpreter
+    if name in {"HFull", "HOpaque", "HNonComm", "HPrint"}:
+        harness_classes()
+        return globals()[name]
+    raise AttributeError(name)
 
 
 def make_phsp_factor(power):
@@ -108,6 +204,8 @@ def attr_candidates(cls, field, decorated) -> list:
                 out.append(c)
         # a class-valued default is a callable attribute: plain functions are admissible values too
         out[1:1] = function_values()
+    elif inspect.isfunction(d):
+        out += harness_function_values()
     else:
         for v in (None, "tag", "builtins.NoneType"):
             if v not in out:
@@ -204,7 +302,7 @@ def make_templates(entry: ClassEntry, ctx: m1.Ctx, rng) -> None:
             t_real = entry.build(*ph, attrs=combo).evaluate()
         except Exception as e:  # noqa: BLE001
             entry.why_no_template = f"evaluate() on placeholders raised {type(e).__name__}: {e}"
-            return
+            continue
         ok = True
         for args in sample_args(entry, rng, 6):
             try:
@@ -233,6 +331,7 @@ def make_templates(entry: ClassEntry, ctx: m1.Ctx, rng) -> None:
 def build_table(rng=None):
     rng = rng or common.rng_for("C14", 0, "table")
     decorated, helpers = discover()
+    decorated = [*decorated, *harness_classes()]
     ctx = m1.Ctx()
     entries = [ClassEntry(c, decorated) for c in decorated]
     for e in entries:
@@ -398,7 +497,9 @@ class Pools:
             return sp.Rational(rng.choice([1, 2, 3, 5]), rng.choice([1, 1, 2, 3]))
         if r < 0.7:
             a, b = rng.choice(self.scalars), rng.choice(self.scalars)
-            return rng.choice([a + b, a * b + 1, a**2, 2 * a - b / 3, self.f(a, b)])
+            c = rng.choice(self.scalars)
+            # compound arguments: sum, difference, negated sum, quotient, product with a sum, function application
+            return rng.choice([a + b, a * b + 1, a**2, 2 * a - b / 3, self.f(a, b), a - b, -(a + c), a / (b + 2), (a + b) * c, -a])
         return self.instance(rng, depth - 1, scalar_only=True)
 
     def momentum(self, rng, depth):
@@ -467,7 +568,7 @@ class Pools:
     @staticmethod
     def is_scalar_class(e: ClassEntry) -> bool:
         mod = e.cls.__module__
-        return mod.startswith("ampform.dynamics") or e.cls.__name__ in {"Kallen", "Kibble"}
+        return mod.startswith("ampform.dynamics") or e.cls.__name__ in {"Kallen", "Kibble", "HFull", "HOpaque", "HPrint"}
 
     def helper_instances(self, rng):
         """Instances of the array/sum helper classes (plain SymPy classes of the package)."""
@@ -634,12 +735,27 @@ def correspondence(chk: common.Check, rng, n_per_class: int, entries, helpers, c
         add(f"(xreplace {s} {ps})", op="xreplace", key=key, real=_try(lambda: r.xreplace(sigma)), expr=r, sigma=sigma)
         seq = list(sigma.items())
         add(f"(subs {s} {ps})", op="subs", key=key, real=_try(lambda: r.subs(seq)), expr=r, sigma=sigma)
-        add(f"(rebuild {s})", op="rebuild", key=key, real=_try(lambda: r.func(*r.args)), expr=r)
+        if entry is not None and any(not f.metadata.get("sympify") for f in entry.fields[: len(r.args)]):
+            # func(*args) would hand a SymPy expression to a non-SymPy field (attribute declared before a SymPy
+            # field): outside the model and outside the clause (all-SymPy-field classes)
+            stats["rebuild_outside_model"] = stats.get("rebuild_outside_model", 0) + 1
+        else:
+            add(f"(rebuild {s})", op="rebuild", key=key, real=_try(lambda: r.func(*r.args)), expr=r)
         if has_unpicklable_attr(r):
             stats["function_valued_attrs_not_picklable_by_python"] = stats.get("function_valued_attrs_not_picklable_by_python", 0) + 1
         else:
             add(f"(roundtrip {s})", op="roundtrip", key=key, real=_try(lambda: pickle.loads(pickle.dumps(r))), expr=r)  # noqa: S301
         if entry is not None:
+            # the generated __new__ on every positional prefix (defaults omitted vs given), one value too many, none
+            vals = [getattr(r, f.name) for f in entry.fields]
+            toks = [f"(e {m1.show(m1.canon(v, ctx))})" if f.metadata.get("sympify") else f"(a {m1.show_attr(m1.attr_of(v, ctx))})"
+                    for f, v in zip(entry.fields, vals)]
+            extra = "(e (rat 7 1))"
+            for k in sorted({0, *range(max(0, len(vals) - 3), len(vals) + 1)}):
+                add(f"(construct {m1.hx(entry.key)} {' '.join(toks[:k])})", op="construct", key=key, expr=r,
+                    real=_try(lambda k=k: entry.cls(*vals[:k])), n_given=k)
+            add(f"(construct {m1.hx(entry.key)} {' '.join([*toks, extra])})", op="construct", key=key, expr=r,
+                real=_try(lambda: entry.cls(*vals, 7)), n_given=len(vals) + 1)
             attrs = tuple(m1.attr_of(getattr(r, f.name), ctx) for f in entry.attr_fields)
             if any(a == attrs for a, _ in entry.templates):
                 ev = _try(r.evaluate)
@@ -665,6 +781,8 @@ def correspondence(chk: common.Check, rng, n_per_class: int, entries, helpers, c
         rec = {"op": op, "class": kw["key"], "expr": str(r)[:400], "srepr": __import__("sympy").srepr(r)[:1500]}
         if "sigma" in kw:
             rec["map"] = {str(k): str(v) for k, v in kw["sigma"].items()}
+        if "n_given" in kw:
+            rec["positional_values_given"] = kw["n_given"]
         line = line.strip()
         if op == "wfterm":
             if line != "true":
